@@ -238,7 +238,11 @@ class Repo:
                 for st in tree.body:
                     if isinstance(st, ast.FunctionDef) and st.name not in ref and not st.decorator_list:
                         body = [x for x in st.body if not (isinstance(x, ast.Expr) and isinstance(x.value, ast.Constant))]
-                        if len(body) == 1 and isinstance(body[0], ast.Return) and body[0].value is not None and not (st.args.vararg or st.args.kwarg or st.args.kwonlyargs or st.args.posonlyargs):
+                        plain = not (st.args.vararg or st.args.kwarg or st.args.kwonlyargs or st.args.posonlyargs)
+                        one_expr = len(body) == 1 and isinstance(body[0], ast.Return) and body[0].value is not None
+                        # ... or a short straight helper (loops and ifs allowed; no nested scopes, generators, global state, recursion)
+                        small = 1 <= len(body) <= 12 and not any(isinstance(n, (ast.FunctionDef, ast.AsyncFunctionDef, ast.Lambda, ast.ClassDef, ast.Yield, ast.YieldFrom, ast.Global, ast.Nonlocal, ast.Try, ast.With)) for x in body for n in ast.walk(x)) and not any(isinstance(n, ast.Name) and n.id == st.name for x in body for n in ast.walk(x))
+                        if plain and (one_expr or small):
                             new_helpers[(name, st.name)] = (st, mod_level, {al.asname or al.name for imp in tree.body if isinstance(imp, (ast.Import, ast.ImportFrom)) for al in imp.names})
                 for q, dump in live.items():
                     if ref.get(q) != dump:
